@@ -15,7 +15,7 @@ else:
     if s.count(old)<1: print("OLD TEXT NOT FOUND"); sys.exit(3)
     open(p,'w').write(s.replace(old,new,1))
 try:
-    extra=os.environ.get('CHECK_ARGS','')
+    extra=os.environ.get('CHECK_ARGS','')+' --evidence /tmp/urisim_mut_ev --replays /tmp/urisim_mut_rp'   # never clobber /verif/evidence with runs on a changed tree
     for pr in props:
         r=run(f"cd /verif && ./check {pr} quick {extra}")
         lines=[l for l in r.stdout.splitlines() if l.startswith('VIOLATION') or l.startswith('  class:') or l.startswith('HARNESS') or 'NOTE out-of-scope' in l]
